@@ -43,8 +43,8 @@ impl Task for EpollJob {
         let stream = unsafe { &*(handle.stream_ptr) };
 
         let mut response = ResponseHandle::new(stream);
-        let keep_alive =
-            handle_one_request(stream, &mut response, &handle.handler_config).unwrap_or(false);
+        let result = handle_one_request(stream, &mut response, &handle.handler_config);
+        let keep_alive = *result.as_ref().unwrap_or(&false);
 
         if keep_alive {
             #[cfg(khttp_verif)]
@@ -57,7 +57,12 @@ impl Task for EpollJob {
                 let _ = epoll_ctl(handle.epfd, EPOLL_CTL_DEL, handle.fd, ptr::null_mut());
                 #[cfg(khttp_verif)]
                 crate::verif::emit(crate::verif::Event::EpStreamDrop(self.handle_ptr));
-                drop(Box::from_raw(handle.stream_ptr)); // close connection
+                let stream = *Box::from_raw(handle.stream_ptr);
+                match &handle.handler_config.connection_teardown_hook {
+                    // as in serve / serve_threaded: the hook receives the stream and the final result
+                    Some(hook) => (hook)(stream, result.map(|_| ())),
+                    None => drop(stream), // close connection
+                }
             }
             #[cfg(khttp_verif)]
             crate::verif::emit(crate::verif::Event::EpClosedStore(self.handle_ptr));
